@@ -12,11 +12,12 @@ VARIABLES l,
           covered,       \* retention-grid heights that lay inside a successfully scanned batch and were not rewound since
           lostOK,        \* << h, pool >>: boundaries the *known finding* C06-retained-boundary-lost explains (see below)
           locks,         \* C08: note -> << owner, expiry height >> (the lock columns of the received-note tables)
+          sugg,          \* C15: the ranges the wallet last suggested to the sync client
           mck, mret      \* Layer B (TreeOps, as on the pinned tree): the checkpoint ids / retained registrations the
                          \* transcribed update_tree predicts per pool; used only to recognise the known finding
 Rec == ndJsonDeserialize(IOEnv.TRACE)
 cvars == << grid, gbase, cmAt, covered, lostOK, mck, mret >>
-tvars == << wvars, l, cvars, locks >>
+tvars == << wvars, l, cvars, locks, sugg >>
 
 \* Known findings (DESIGN C06, known_findings.json).  The check enables an excuse only while the finding
 \* is listed as open; each use is printed so that the check can report it as KNOWN-FINDING.
@@ -111,19 +112,19 @@ TReset == /\ IsEvent("reset")
           /\ chain' = << >> /\ top' = 0 /\ scanned' = {} /\ txs' = << >> /\ known' = {}
           /\ ninfo' = << >> /\ links' = {} /\ tip' = -1 /\ maxFrom' = 0 /\ taint' = FALSE
           /\ grid' = Rec[l].grid /\ gbase' = Rec[l].gbase /\ cmAt' = << >> /\ covered' = {} /\ lostOK' = {}
-          /\ mck' = EmptyCk /\ mret' = EmptyCk /\ locks' = << >>
+          /\ mck' = EmptyCk /\ mret' = EmptyCk /\ locks' = << >> /\ sugg' = << >>
           /\ PostOK(Rec[l].post)
 
 TBlock == /\ IsEvent("block")
           /\ Block(Rec[l].h, Rec[l].b, Rec[l].txs)
           /\ cmAt' = [x \in 1..Rec[l].h |-> IF x = Rec[l].h THEN Rec[l].cm ELSE cmAt[x]]
-          /\ UNCHANGED << grid, gbase, covered, lostOK, mck, mret, locks >>
+          /\ UNCHANGED << grid, gbase, covered, lostOK, mck, mret, locks, sugg >>
           /\ PostOK(Rec[l].post)
 
 TTip == /\ IsEvent("tip")
         /\ Rec[l].res = "ok"
         /\ UpdateTip(Rec[l].h)
-        /\ UNCHANGED cvars /\ UNCHANGED locks
+        /\ UNCHANGED cvars /\ UNCHANGED locks /\ UNCHANGED sugg
         /\ PostOK(Rec[l].post)
 
 \* Known finding C06-retained-boundary-lost (found by TLC on CommitmentTree.tla, confirmed on the real
@@ -131,7 +132,14 @@ TTip == /\ IsEvent("tip")
 \* the retained boundary of a pool without a commitment in the boundary block is lost when more than the
 \* checkpoint budget follows it in the batch, or when the batch lies below the pool's checkpoints.  A lost
 \* boundary is excused exactly when the transcription of the pinned update_tree (TreeOps) loses it too.
-TScan == /\ IsEvent("scan") /\ UNCHANGED locks
+\* C15, termination: a scan made by the documented sync client takes a chunk from the start of the first range
+\* the wallet suggested, and every block of it is new - the number of unscanned blocks below the tip strictly
+\* decreases with every client step (only the environment can increase it)
+ClientStep(r) == r.client =>
+                   /\ Len(sugg) >= 1 /\ r.from = sugg[1][1] /\ r.from + r.n <= sugg[1][2] /\ r.n >= 1
+                   /\ r.res = "ok"
+                   /\ \A h \in r.from..(r.from + r.n - 1) : h \notin scanned /\ h <= top
+TScan == /\ IsEvent("scan") /\ UNCHANGED locks /\ UNCHANGED sugg /\ ClientStep(Rec[l])
          /\ \/ /\ Rec[l].res = "ok" /\ Scan(Rec[l].from, Rec[l].n)
                /\ LET R == { h \in Rec[l].from..(Rec[l].from + Rec[l].n - 1) : h <= top }
                       own(i) == { h \in R : cmAt[h][i] > 0 }
@@ -149,7 +157,7 @@ TScan == /\ IsEvent("scan") /\ UNCHANGED locks
                /\ UNCHANGED wvars /\ UNCHANGED cvars
          /\ PostOK(Rec[l].post)
 
-TTrunc == /\ IsEvent("trunc") /\ UNCHANGED locks
+TTrunc == /\ IsEvent("trunc") /\ UNCHANGED locks /\ UNCHANGED sugg
           /\ \/ /\ Rec[l].res = "ok" /\ Truncate(Rec[l].req, Rec[l].to, Rec[l].fork)
                 /\ (IOEnv.CHECK_TREES = "1") => Rec[l].to \in scanned     \* TruncateLaw: the wallet settles on a scanned height
                 /\ (IOEnv.CHECK_TREES = "1" /\ Rec[l].post.chk) =>        \* ... and nothing survives above it
@@ -179,7 +187,23 @@ TFresh == /\ IsEvent("fresh")
           /\ Rec[l].balp => /\ Rec[l].bal.S = << MinedBal("S", FALSE), MinedBal("S", TRUE) >>
                             /\ Rec[l].bal.O = << MinedBal("O", FALSE), MinedBal("O", TRUE) >>
                             /\ Rec[l].bal.I = << MinedBal("I", FALSE), MinedBal("I", TRUE) >>
-          /\ UNCHANGED wvars /\ UNCHANGED cvars /\ UNCHANGED locks
+          /\ UNCHANGED wvars /\ UNCHANGED cvars /\ UNCHANGED locks /\ UNCHANGED sugg
+
+\* C15: suggest_scan_ranges returns exactly the queue entries of priority Historic or above, highest priority
+\* first and, within a priority, the highest range first; the sync loop ends with nothing suggested, everything
+\* up to the tip scanned, and never needed more steps than blocks it scanned
+TSuggest == /\ IsEvent("suggest")
+            /\ LET rs == Rec[l].ranges  q == Rec[l].post.queue
+               IN  /\ { << rs[i][1], rs[i][2], rs[i][3] >> : i \in DOMAIN rs } = { << q[i][1], q[i][2], q[i][3] >> : i \in { i \in DOMAIN q : q[i][3] >= 2 } }
+                   /\ \A i \in 1..(Len(rs) - 1) : rs[i][3] > rs[i + 1][3] \/ (rs[i][3] = rs[i + 1][3] /\ rs[i][2] > rs[i + 1][2])
+                   /\ sugg' = rs
+            /\ UNCHANGED wvars /\ UNCHANGED cvars /\ UNCHANGED locks
+            /\ PostOK(Rec[l].post)
+TSyncDone == /\ IsEvent("syncdone")
+             /\ sugg = << >> /\ top >= 1 /\ scanned = 1..top /\ tip = top
+             /\ Rec[l].steps <= Rec[l].blocks
+             /\ UNCHANGED wvars /\ UNCHANGED cvars /\ UNCHANGED locks /\ UNCHANGED sugg
+             /\ PostOK(Rec[l].post)
 
 \* ---------------------------------------------------------------------------------------------
 \* C08: proposals and output locks.  Propose is *relational*: which eligible notes the selector picks,
@@ -222,7 +246,7 @@ TPropose == /\ IsEvent("propose")
                   /\ \E n \in DOMAIN locks : locks[n][1] \in SeqToSet(Rec[l].admitted) /\ ~Acquirable(n, Rec[l].lock[1])
                   /\ UNCHANGED locks
                \/ Rec[l].res \in {"insufficient", "scan-required"} /\ UNCHANGED locks      \* refusals: no claim
-            /\ UNCHANGED wvars /\ UNCHANGED cvars
+            /\ UNCHANGED wvars /\ UNCHANGED cvars /\ UNCHANGED sugg
             /\ PostOK(Rec[l].post)
 TLock == /\ IsEvent("lock")
          /\ LET ns == SeqToSet(Rec[l].notes)
@@ -230,21 +254,21 @@ TLock == /\ IsEvent("lock")
                    /\ locks' = [n \in DOMAIN locks \cup ns |-> IF n \in ns THEN << Rec[l].owner, Rec[l].exp >> ELSE locks[n]]
                 \/ /\ Rec[l].res = "lock-failure" /\ \E n \in ns : ~Acquirable(n, Rec[l].owner)
                    /\ UNCHANGED locks                                         \* all-or-nothing
-         /\ UNCHANGED wvars /\ UNCHANGED cvars
+         /\ UNCHANGED wvars /\ UNCHANGED cvars /\ UNCHANGED sugg
          /\ PostOK(Rec[l].post)
 TUnlock == /\ IsEvent("unlock") /\ Rec[l].res = "ok"
            /\ LET gone == { n \in SeqToSet(Rec[l].notes) \cap DOMAIN locks : locks[n][1] = Rec[l].owner }
               IN  locks' = [n \in DOMAIN locks \ gone |-> locks[n]]
-           /\ UNCHANGED wvars /\ UNCHANGED cvars
+           /\ UNCHANGED wvars /\ UNCHANGED cvars /\ UNCHANGED sugg
            /\ PostOK(Rec[l].post)
 TClear == /\ IsEvent("clearlocks") /\ Rec[l].res = "ok"
           /\ Rec[l].count = Cardinality(DOMAIN locks)
           /\ locks' = << >>
-          /\ UNCHANGED wvars /\ UNCHANGED cvars
+          /\ UNCHANGED wvars /\ UNCHANGED cvars /\ UNCHANGED sugg
           /\ PostOK(Rec[l].post)
 
-TraceInit == Init /\ l = 1 /\ locks = << >> /\ grid = 0 /\ gbase = 0 /\ cmAt = << >> /\ covered = {} /\ lostOK = {} /\ mck = EmptyCk /\ mret = EmptyCk
-TraceNext == TReset \/ TBlock \/ TTip \/ TScan \/ TTrunc \/ TFresh \/ TPropose \/ TLock \/ TUnlock \/ TClear
+TraceInit == Init /\ l = 1 /\ locks = << >> /\ sugg = << >> /\ grid = 0 /\ gbase = 0 /\ cmAt = << >> /\ covered = {} /\ lostOK = {} /\ mck = EmptyCk /\ mret = EmptyCk
+TraceNext == TReset \/ TBlock \/ TTip \/ TScan \/ TTrunc \/ TFresh \/ TPropose \/ TLock \/ TUnlock \/ TClear \/ TSuggest \/ TSyncDone
 TraceSpec == TraceInit /\ [][TraceNext]_tvars
 
 Accepted == LET n == TLCGet("stats").diameter - 1
